@@ -537,6 +537,14 @@ func main() {
 	level1()
 	level2()
 	level3()
+	run.Races(func(rep string) string {
+		for _, frag := range []string{"/repo/types/blob/", "/repo/internal/limitread/", "/repo/internal/reghttp/", "/repo/scheme/reg/blob.go", "/repo/scheme/ocidir/blob.go"} {
+			if fn := ev.RaceFrame(rep, frag); fn != "" {
+				return "race/blob-read/" + fn
+			}
+		}
+		return ""
+	})
 	if run.Get("reads_completed_cleanly") < 1000 || run.Get("reads_ended_in_error") < 1000 || run.Get("registry_reads_with_connection_drops") < 100 || run.Get("rewinds") < 100 {
 		run.Inconclusive("too few reads in one of the classes")
 	}
